@@ -143,6 +143,7 @@ M = {
     'se01_sha256_final_no_wipe': ('alg/sha256.c', 'C20', '@first:insecure_memzero(ctx, sizeof(SHA256_CTX));', ''),
     'se02_aes_free_no_wipe': ('crypto/crypto_aes.c', 'C20', "\tinsecure_memzero(key, sizeof(AES_KEY));\n\n\t/* Free the key. */", "\t/* Free the key. */"),
     'se03_aesctr_free_no_wipe': ('crypto/crypto_aesctr.c', 'C20', '@first:insecure_memzero(stream, sizeof(struct crypto_aesctr));', ''),
+    'se06_aesni_free_no_wipe': ('crypto/crypto_aes_aesni.c', 'C20', '@first:insecure_memzero(key, sizeof(struct crypto_aes_key_aesni));', ''),
     'se04_readkeys_no_wipe': ('aws/aws_readkeys.c', 'C20',
         "\t\tinsecure_memzero(*key_secret, strlen(*key_secret));\n", ""),
     'se05_dh_blinding_free_not_clear': ('crypto/crypto_dh.c', 'C20',
